@@ -24,6 +24,9 @@
 (*                project; set_core(d-1)  on the same base-point object:   *)
 (*                the projector depends on the value of x only, not on     *)
 (*                calls made earlier (no stale state)                      *)
+(*   oracle_nc    the same for a base point whose cores have a permuted    *)
+(*                memory layout (what round(), t(), permute() and mprod()  *)
+(*                return): the value of x matters, not its strides         *)
 (***************************************************************************)
 EXTENDS Integers, Sequences, FiniteSets, TLC
 
@@ -57,7 +60,7 @@ NF(t) ==
 
 Init == /\ s \in STRUCTS
         /\ term \in Terms(DEPTH) \cup {Atom("grad_quad"), Atom("grad_lin"), Atom("grad_quart"), Atom("scalar_laws"),
-                                   Atom("oracle"), Atom("oracle_upd")}
+                                   Atom("oracle"), Atom("oracle_upd"), Atom("oracle_nc")}
         /\ nf = Zero
 Decide == /\ nf = Zero /\ term.op \in {"z", "w", "x", "P", "lin"}
           /\ nf' = NF(term) /\ UNCHANGED <<s, term>>
